@@ -155,6 +155,9 @@ func applyConfig(sc *Scenario, jobDir string) error {
 		os.WriteFile(f, []byte(strings.Join(x.ExclusionRegex, "\n")+"\n"), 0o644)
 		c.ExclusionFile = []string{f}
 	}
+	if x.TempInWarcs {
+		c.WARCTempDir = filepath.Join("jobs", c.Job, "warcs")
+	}
 	if err := config.GenerateCrawlConfig(); err != nil {
 		return err
 	}
@@ -473,6 +476,9 @@ func RunE2E(t *testing.T, in *RunInput) {
 			k.ReleaseWeight = sc.Sched.ReleaseWeight
 		}
 		k.FIFO = sc.Sched.FIFO
+		if sc.Sched.Slow != "" {
+			k.SetSlow(sc.Sched.Slow, sc.Sched.SlowDiv)
+		}
 		if f, err := os.OpenFile(filepath.Join(in.JobDir, fmt.Sprintf("events.%d.jsonl", in.Phase)), os.O_CREATE|os.O_WRONLY|os.O_APPEND, 0o644); err == nil {
 			k.logFile = f
 		}
